@@ -255,8 +255,11 @@ def _terms(w, sc, pps, meta, path, sc2, pps2):
     v_out = xmlfmt.extract(xmlfmt.ROOT, xmlfmt.Doc(sc2, pps2, meta2), set_sorted=True, el=root)
     t_r = xmlfmt.parse(xmlfmt.ROOT, root, set_sorted=True, side="R")
     b = f"CaseB {xmlfmt.coq_tree(t_r)} {xmlfmt.coq_val(v_out)}"
-    return [("A: written tree = write W.xml_root (original), d = the writer's own precision, inside a history", a),
-            ("B: read-back value = read R.xml_root (written tree), inside a history", b)]
+    from props.codec_gen import may_open_ring
+    out = [("A: written tree = write W.xml_root (original), d = the writer's own precision, inside a history", a)]
+    if not may_open_ring(w["seed"]):
+        out.append(("B: read-back value = read R.xml_root (written tree), inside a history", b))
+    return out
 
 
 def reoriented(case):
